@@ -93,7 +93,18 @@ func init() {
 						for k := off; k <= maxK; k += step {
 							cfg := WorldCfg{Dir: dir}
 							if fc != "on" {
-								cfg.ClientNoFC, cfg.ServerNoFC = true, true
+								// revision zero comes about in several ways: either side or both disabled flow
+								// control, or a peer that does not negotiate at all
+								switch (ci + k/step + r) % 5 {
+								case 0, 1:
+									cfg.ClientNoFC, cfg.ServerNoFC = true, true
+								case 2:
+									cfg.ClientNoFC = true
+								case 3:
+									cfg.ServerNoFC = true
+								case 4:
+									cfg.StripReq, cfg.StripResp = true, true
+								}
 							}
 							out = append(out, Case{Family: "termination", Seed: rng.Int63(), Cfg: cfg, P: map[string]int{"k": k}, S: map[string]string{"cause": cause}})
 						}
@@ -112,7 +123,14 @@ func init() {
 					for _, fc := range []bool{true, false} {
 						cfg := WorldCfg{Dir: dir}
 						if !fc {
-							cfg.ClientNoFC, cfg.ServerNoFC = true, true
+							switch r % 3 {
+							case 0:
+								cfg.ClientNoFC, cfg.ServerNoFC = true, true
+							case 1:
+								cfg.ServerNoFC = true
+							case 2:
+								cfg.ClientNoFC = true
+							}
 						}
 						out = append(out, Case{Family: "termnested", Seed: rng.Int63(), Cfg: cfg, P: map[string]int{"steps": r % 4}, S: map[string]string{"cause": cause}})
 					}
